@@ -31,7 +31,7 @@ ASSUMPTIONS = ["a fresh build of the same spec is the history-free reference", "
                "tolerances: direct 1e-7 (f64) / 5e-3 (f32); 5e-3 when a Lanczos-based result is involved (lanczos.* hook events)"]
 REQUIRED_STATS = ("queries", "cache_hits")
 
-QUERIES = ["to_dense", "diagonal", "cholesky", "cholesky_upper", "root", "root_cholesky", "root_lanczos", "root_symeig", "root_inv", "root_inv_lanczos",
+QUERIES = ["to_dense", "diagonal", "cholesky", "cholesky_upper", "chol_inverse", "chol_upper_inverse", "root", "root_cholesky", "root_lanczos", "root_symeig", "root_inv", "root_inv_lanczos",
            "root_inv_cholesky", "diagonalization", "diagonalization_lanczos", "svd", "eigh", "eigvalsh", "solve", "logdet", "inv_quad_logdet",
            "preconditioner", "sample"]
 DERIVS = ["add_jitter", "add_diagonal", "add_low_rank", "cat_rows", "getitem", "transpose", "scale", "expand"]
@@ -143,6 +143,9 @@ def query(op, name, seed, dense, rng_seed=None):
         return op.diagonal()
     if name in ("cholesky", "cholesky_upper"):
         return _dense(op.cholesky(upper=name.endswith("upper")))
+    if name in ("chol_inverse", "chol_upper_inverse"):
+        # a query on the factor object the operator hands out (the upper factor is derived from the cached lower one by transposition)
+        return _dense(op.cholesky(upper="upper" in name).inverse())
     if name.startswith("root_inv"):
         m = {"root_inv": None, "root_inv_lanczos": "lanczos", "root_inv_cholesky": "cholesky"}[name]
         R = _dense(op.root_inv_decomposition(method=m).root)
